@@ -44,7 +44,7 @@ FAMILIES = {
         "sim": {"module": "SimSP", "cfg": "SP-sim.cfg",
                 "tiers": {"quick": {"num": 100, "depth": 40, "workers": 4}, "thorough": {"num": 2000, "depth": 50, "workers": 8, "timeout": 2400}}},
         "trace_module": "SPTrace", "trace_cfg": "SP-trace.cfg",
-        "vh_cfg": {},
+        "variants": [{"vh_cfg": {}, "sim_subst": {}}, {"vh_cfg": {"fine": True, "price": 15, "fund": 1200000000}, "sim_subst": {}}],
         "tiers": {"quick": {"rand": 300, "rlen": 50, "chunks": 8}, "thorough": {"rand": 6000, "rlen": 60, "chunks": 14}},
     },
     "mint": {
@@ -186,7 +186,7 @@ PROPS = {
         "assumptions": SD_ASSUME + ["collateral price changes are applied through the params keeper, not a governance proposal"],
     },
     "C17": {
-        "family": "sd", "formulas": ["C17_Indexes", "C17_Lists"], "nt": "C17",
+        "family": "sd", "formulas": ["C17_Indexes", "C17_Lists", "C17_Queries"], "nt": "C17",
         "mc_cfg": {"quick": ["SD-mc-rewards-quick.cfg", "SD-mc-quorum-quick.cfg"], "thorough": ["SD-mc-rewards-quick.cfg", "SD-mc-quorum-quick.cfg", "SD-mc-rewards-thorough.cfg"]},
         "bug_variants": [],
         "rule": "non-trivial = a step that changes the file set, a prover list or a proof record; "
@@ -209,7 +209,7 @@ PROPS = {
         "assumptions": SP_ASSUME,
     },
     "C12": {
-        "family": "sp", "formulas": ["C12_Gauges"], "nt": "C12",
+        "family": "sp", "formulas": ["C12_Gauges", "C12_Exact"], "nt": "C12",
         "mc_cfg": {"quick": ["SP-mc-pay-quick.cfg"], "thorough": ["SP-mc-pay-quick.cfg"]},
         "bug_variants": [("gaugeid", ["PC12"], "SP-mc-pay12.cfg")],
         "rule": "non-trivial = a reward block while some gauge account holds tokens; distinct = distinct (pre-state, block, post-state) triples",
